@@ -46,6 +46,22 @@ MUTANTS = [
     ('m28-i64-rem-euclid', 'src/i64/i64vec3.rs', 'self.y.rem_euclid(rhs.y),', 'self.y % rhs.y,', ['C13'], 'rem_euclid lane y is the truncated remainder'),
     ('m29-vec3-refract', 'src/f32/vec3.rs', 'let k = 1.0 - eta * eta * (1.0 - n_dot_i * n_dot_i);', 'let k = 1.0 - eta * (1.0 - n_dot_i * n_dot_i);', ['C02'], 'refract discriminant'),
     ('m30-mat2-from-scale-angle', 'src/f32/sse2/mat2.rs', 'Self::new(cos * scale.x, sin * scale.x, -sin * scale.y, cos * scale.y)', 'Self::new(cos * scale.x, sin * scale.y, -sin * scale.x, cos * scale.y)', ['C10', 'C07'], 'from_scale_angle mixes the scale components'),
+    # ---- batch 2
+    ('m31-neon-round-ties-even', 'src/f32/neon/vec4.rs', 'Self(unsafe { vrndaq_f32(self.0) })', 'Self(unsafe { vrndnq_f32(self.0) })', ['C01'], 'NEON round() ties to even (thorough tier: aarch64 facts)', 'thorough'),
+    ('m32-wasm32-floor-is-ceil', 'src/f32/wasm32/vec4.rs', 'Self(f32x4_floor(self.0))', 'Self(f32x4_ceil(self.0))', ['C01'], 'wasm32 floor() is ceil (thorough tier)', 'thorough'),
+    ('m33-coresimd-dot3-four-lanes', 'src/coresimd.rs', 'pub(crate) fn dot3(lhs: f32x4, rhs: f32x4) -> f32 {\n    dot3_in_x(lhs, rhs)[0]', 'pub(crate) fn dot3(lhs: f32x4, rhs: f32x4) -> f32 {\n    (lhs * rhs).reduce_sum()', ['C08'], 'core-simd Vec3A::dot sums the hidden lane'),
+    ('m34-vec4-write-to-slice-oob', 'src/f32/sse2/vec4.rs', 'pub fn write_to_slice(self, slice: &mut [f32]) {\n        assert!(slice.len() >= 4);', 'pub fn write_to_slice(self, slice: &mut [f32]) {\n        assert!(slice.len() >= 3);', ['C18'], 'raw 16-byte store after a 12-byte length check'),
+    ('m35-bvec4-bitmask-shift', 'src/bool/bvec4.rs', '((self.w as u32) << 3)', '((self.w as u32) << 2)', ['C15'], 'bitmask puts w on bit 2'),
+    ('m36-vec3a-with-z-writes-w', 'src/f32/sse2/vec3a.rs', 'pub fn with_z(mut self, z: f32) -> Self {\n        self.z = z;', 'pub fn with_z(mut self, z: f32) -> Self {\n        self.y = z;', ['C17', 'C16'], 'with_z changes y'),
+    ('m37-mat3a-from-mat3-columns', 'src/f32/sse2/mat3a.rs', 'x_axis: m.x_axis.into(),\n            y_axis: m.y_axis.into(),\n            z_axis: m.z_axis.into(),\n        }\n    }\n}', 'x_axis: m.x_axis.into(),\n            y_axis: m.z_axis.into(),\n            z_axis: m.y_axis.into(),\n        }\n    }\n}', ['C05'], 'Mat3 -> Mat3A swaps columns'),
+    ('m38-quat-from-rotation-y-sign', 'src/f32/sse2/quat.rs', 'Self::from_xyzw(0.0, s, 0.0, c)', 'Self::from_xyzw(0.0, -s, 0.0, c)', ['C09', 'C07'], 'from_rotation_y rotates clockwise'),
+    ('m39-ortho-rh-gl-depth', 'src/f32/sse2/mat4.rs', 'let c = -2.0 / (far - near);\n        let tx = -(right + left) / (right - left);\n        let ty = -(top + bottom) / (top - bottom);\n        let tz = -(far + near) / (far - near);', 'let c = 2.0 / (far - near);\n        let tx = -(right + left) / (right - left);\n        let ty = -(top + bottom) / (top - bottom);\n        let tz = -(far + near) / (far - near);', ['C11', 'C07'], 'orthographic_rh_gl depth sign'),
+    ('m40-i16vec4-wrapping-sub-lane', 'src/i16/i16vec4.rs', 'z: self.z.wrapping_sub(rhs.z),', 'z: self.z.wrapping_sub(rhs.w),', ['C13'], 'wrapping_sub lane z uses rhs.w'),
+    ('m41-project-onto-normalized-no-assert', 'src/f32/vec3.rs', 'pub fn project_onto_normalized(self, rhs: Self) -> Self {\n        glam_assert!(rhs.is_normalized());', 'pub fn project_onto_normalized(self, rhs: Self) -> Self {', ['C20'], 'documented precondition no longer asserted'),
+    ('m42-euler-order-table', 'src/euler.rs', 'EulerRot::XZY => Self::new(Axis::X, Parity::Odd, Repeated::No, Frame::Static),', 'EulerRot::XZY => Self::new(Axis::X, Parity::Even, Repeated::No, Frame::Static),', ['C09'], 'XZY decoded with the parity of XYZ'),
+    ('m43-fma-without-fast-math', 'src/sse2.rs', '#[cfg(all(feature = "fast-math", target_feature = "fma"))]\n    {\n        _mm_fmadd_ps(a, b, c)\n    }\n\n    #[cfg(any(not(feature = "fast-math"), not(target_feature = "fma")))]\n    {\n        _mm_add_ps(_mm_mul_ps(a, b), c)', '#[cfg(target_feature = "fma")]\n    {\n        _mm_fmadd_ps(a, b, c)\n    }\n\n    #[cfg(not(target_feature = "fma"))]\n    {\n        _mm_add_ps(_mm_mul_ps(a, b), c)', ['C07'], 'fused multiply-add without fast-math'),
+    ('m44-vec3a-min-position-hidden', 'src/f32/sse2/vec3a.rs', 'if self.z < min {\n            index = 2;\n        }\n        index\n    }\n\n    /// Returns the index of the first maximum', 'if self.z < min {\n            min = self.z;\n            index = 2;\n        }\n        if unsafe { _mm_cvtss_f32(_mm_shuffle_ps(self.0, self.0, 0b11_11_11_11)) } < min {\n            index = 0;\n        }\n        index\n    }\n\n    /// Returns the index of the first maximum', ['C08', 'C01'], 'min_position consults the hidden lane'),
+    ('m45-ivec2-manhattan', 'src/i32/ivec2.rs', 'self.x.abs_diff(other.x) + self.y.abs_diff(other.y)', 'self.x.abs_diff(other.x) + self.x.abs_diff(other.y)', ['C13'], 'manhattan_distance mixes lanes'),
 ]
 
 
@@ -73,7 +89,9 @@ def main():
     fresh_copy()
     env = dict(os.environ, GLAM_REPO=SCR, GLAM_VERIF_OUT=OUT)
     results = []
-    for (mid, rel, old, new, checks, note) in MUTANTS:
+    for mut in MUTANTS:
+        (mid, rel, old, new, checks, note) = mut[:6]
+        mtier = mut[6] if len(mut) > 6 else tier
         if only and mid not in only:
             continue
         if old is None:
@@ -90,7 +108,7 @@ def main():
         detail = {}
         t0 = time.time()
         for c in checks:
-            out = sh('cd %s && ./check %s --tier %s' % (VERIF, c, tier), env=env)
+            out = sh('cd %s && ./check %s --tier %s' % (VERIF, c, mtier), env=env)
             lines = [l for l in out.split('\n') if 'VIOLATION rule' in l or 'UNVERIFIABLE rule' in l]
             if 'VIOLATION property=' in out:
                 fired.append(c)
